@@ -422,6 +422,8 @@ class SeqOf(Kind):
         arr = mk("!arr", z3.ArraySort(z3.IntSort(), self.inner.sort()))
         length = mk("!len", z3.IntSort())
         ctx.assume(length >= 0)
+        if not getattr(ctx, "under_quantifier", False):
+            ctx.assume(length < 2 ** 63)  # CPython: len() of a list / tuple fits Py_ssize_t
         return SymSeq(arr, length, self.inner)
 
     def sort(self):
